@@ -54,6 +54,8 @@ def top(ch, leafkind, adversary):
     else:
         decls.append(("inst", "tr", ("prim", "R", {"r": 9}), [("p", sig("s")), ("n", sig("P"))]))
     for k, (nm, w) in enumerate(adversary):
+        if nm.startswith("L2/"):
+            continue
         decls.append(("sig", nm, w))
         if w == 1:
             decls.append(("inst", f"adv{k}", ("prim", "R", {"r": 20 + k}), [("p", sig(nm)), ("n", sig(nm))]))
@@ -62,7 +64,9 @@ def top(ch, leafkind, adversary):
     return {"name": "Top", "style": "proc", "decls": decls}
 
 
-ADVERSARIES = [[], [("i0:m", 1)], [("i0:u0:n", 1)], [("i1:k", 2)], [("j:n", 1), ("i0:k", 2)], [("i0:m", 1), ("i1:m", 1), ("i1:u1:n", 1)]]
+ADVERSARIES = [[], [("i0:m", 1)], [("i0:u0:n", 1)], [("i1:k", 2)], [("j:n", 1), ("i0:k", 2)], [("i0:m", 1), ("i1:m", 1), ("i1:u1:n", 1)],
+               # nets *inside* the mid-level module L2 named like the path-names of nets further down ("L2/<name>")
+               [("L2/u0:n", 1)], [("L2/u1:n", 1), ("i0:m", 1)]]
 
 
 def mk(item):
@@ -72,6 +76,9 @@ def mk(item):
          ("inst", "ra", ("prim", "R", {"r": 16}), [("p", sig("n")), ("n", sig("n"))]),
          ("inst", "ea", ("ext", "E2", {"k": 17}), [("p", sig("n")), ("q", sig("k"))])]}
     mods = {"Z": z, "L1": l1(leafkind), "L2": l2(ch2), "Top": top(cht, leafkind, ADVERSARIES[adv])}
+    for k, (nm, w) in enumerate(ADVERSARIES[adv]):
+        if nm.startswith("L2/"):
+            mods["L2"]["decls"] += [("sig", nm[3:], w), ("inst", f"adv{k}", ("prim", "R", {"r": 30 + k}), [("p", sig(nm[3:])), ("n", sig("m"))])]
     return {"bundles": {}, "exts": exts, "modules": mods, "top": "Top"}
 
 
@@ -161,7 +168,7 @@ def run(ctx):
             for b_, ct in enumerate(chts):
                 if ctx.quick and (a * 7 + b_ * 3 + ctx.seed) % 4:
                     continue
-                items.append((leafkind, c2, ct, (a + b_) % len(ADVERSARIES)))
+                items.append((leafkind, c2, ct, len(items) % len(ADVERSARIES)))  # every adversary set in turn
     if ctx.quick:
         ctx.cap("1/4 of the 2 x 64 x 64 wiring assignments (offset VERIF_SEED) in the quick tier")
     res = ctx.pmap(_one, items, chunk=50)
